@@ -36,7 +36,8 @@ func propHistory(t *rapid.T) {
 		Owns:    map[string]bool{"C19": true},
 		Wallets: 2,
 		Mints:   rapid.IntRange(1, 2).Draw(t, "mints"),
-		Fees:    []uint{0, 100},
+		// outputs that cover fees consume counters too: most histories run against fee-charging mints
+		Fees: []uint{0, 100, 100, 1000},
 	})
 	defer m.Close()
 	rec.Eval()
@@ -66,7 +67,7 @@ func propDeep(t *rapid.T) {
 		Owns:    map[string]bool{"C19": true},
 		Wallets: 1,
 		Mints:   1,
-		Fees:    []uint{0, 100},
+		Fees:    []uint{0, 100, 1000},
 	})
 	defer m.Close()
 	rec.Eval()
